@@ -35,6 +35,6 @@ Emit == PrintT(ToJson([f |-> "filert", cs |-> SetToSeq({LCase(ms) : ms \in Lists
 Spec == GenSpec
 cKeys == {<<"a">>, <<"b">>, <<"-", "x">>}
 cScalars == {VS(<<"{", "}">>), VS(<<"\"", "\\">>), VS(<<" ", "y">>), VF(<<"1", ".", "5">>), VB(<<"t", "r", "u", "e">>)}
-cScalarsQ == {VS(<<"{", "\"", "\\", "}", "~">>), VF(<<"1", ".", "5">>)}      \* (~ stands for a two-byte character)
+cScalarsQ == {VS(<<"{", "\"", "\\", "}", "~", "\\", "u", "0", "0", "3", "c">>), VF(<<"1", ".", "5">>)}      \* (~ stands for a two-byte character; the tail is the six characters \u003c, not "<")
 cConts == {EmptyMap, EmptyList}
 =============================================================================
